@@ -48,7 +48,7 @@ def od():
 
 
 def bounds(tier):
-    return {"bfs_depth": 3 if tier == "quick" else "closure (cap 60000 states)", "events": len(EVENTS),
+    return {"bfs_depth": 3 if tier == "quick" else 4, "events": len(EVENTS),
             "preemption_bound": 2 if tier == "quick" else 3}
 
 
@@ -213,14 +213,14 @@ def cases(tier, seed):
 
 
 def run_main(tier, seed, jobs, st):
-    depth = 3 if tier == "quick" else None
+    depth = 3 if tier == "quick" else 4
     res = kernel.bfs_parallel(World, apply, None, lambda w: w.canon(), jobs=jobs, static_events=EVENTS,
-                              terminal=lambda w, v: bool(v), max_states=60000, max_depth=depth)
+                              terminal=lambda w, v: bool(v), max_states=1000000, max_depth=depth)
     _merge(res, st, {"part": "bfs", "first": None, "depth": depth})
     st.sample({"bfs": "global", "states": res["states"], "transitions": res["transitions"], "closed": res["closed"],
                "depth": res["depth"]})
     if res["capped"]:
-        st.caps.append("state cap 60000 reached before closure")
+        st.caps.append("state cap reached")
 
 
 def _merge(res, st, case):
